@@ -1360,8 +1360,8 @@ class ExecutionTracer(AbstractExecutionTracer):  # noqa: PLR0904
             super().__init__()
             self.enabled = True
             self.trace = ExecutionTrace()
-            # predicate of a membership test whose outcome is reported after the comparison
-            self.pending_membership: int | None = None
+            # predicates of membership tests whose outcome is reported after the comparison
+            self.pending_membership: set[int] = set()
 
     def __init__(self) -> None:  # noqa: D107
         # Contains the trace information that is generated when a module is imported
@@ -1517,7 +1517,9 @@ class ExecutionTracer(AbstractExecutionTracer):  # noqa: PLR0904
     def executed_compare_predicate(  # noqa: D102
         self, value1, value2, predicate: int, cmp_op: PynguinCompare
     ) -> None:
-        self._thread_local_state.pending_membership = None
+        # Only this predicate: the comparison of the subject may run code (a generator body)
+        # that executes other comparisons before the outcome of this one is reported.
+        self._thread_local_state.pending_membership.discard(predicate)
         with self.temporarily_disable():
             value1 = tt.unwrap(value1)
             value2 = tt.unwrap(value2)
@@ -1535,16 +1537,16 @@ class ExecutionTracer(AbstractExecutionTracer):  # noqa: PLR0904
                 return
             if outcome is None:
                 # reported by executed_membership_outcome after the comparison of the subject
-                self._thread_local_state.pending_membership = predicate
+                self._thread_local_state.pending_membership.add(predicate)
                 return
             distance_true, distance_false = _branch_distances(outcome, to_true, to_false)
             self._update_metrics(distance_false, distance_true, predicate)
 
     @_early_return
     def executed_membership_outcome(self, outcome, predicate: int) -> None:  # noqa: D102
-        if self._thread_local_state.pending_membership != predicate:
+        if predicate not in self._thread_local_state.pending_membership:
             return
-        self._thread_local_state.pending_membership = None
+        self._thread_local_state.pending_membership.discard(predicate)
         if outcome:
             self._update_metrics(distance_false=1.0, distance_true=0.0, predicate=predicate)
         else:
